@@ -94,7 +94,16 @@ def check(F, rep, tier):
         rep.fn_seen(op)
         txts = {t for g in [op] + F.children(op.path) for c, t, h in flowtpl.templates_of(F, g)}
         uses_flag = any((mir.callee(t) or "").endswith("Option::<T>::or_else") or (mir.callee(t) or "").endswith("Option::<T>::or") for bi, t in op.calls())
+        if not uses_flag:
+            # `match &self.post { Some(t) => Some(t.clone()), None => Some(default) }`: the template is built on the None arm of the flag
+            for g_ in [op] + F.children(op.path):
+                for b2, t2 in g_.calls():
+                    if str(mir.callee(t2) or "").endswith("Template::<T>::new"):
+                        for d, pol, dd in mir.guards_of(g_, b2):
+                            if d[0] == "discr" and "Option<" in str(d[2]) and isinstance(pol, tuple) and (("None" in pol[1]) if pol[0] == "in" else ("Some" in pol[1])):
+                                if any(o.fields()[-1:] == ["post"] for o in mir.trace_place(g_, d[1])): uses_flag = True
         if txts == {"{{ post }}"} and uses_flag: rep.ok("R04.1", "post base is --post, else the tag's {{ post }}", nontrivial_key="opost")
+        elif txts == {"{{ post }}"}: rep.undecided("R04.1", "override-post-shape", "how the --post flag takes precedence over the default template is not recognised", op.where())
         else: rep.bad("R04.1", "override-post", "override_post default is %s (or_else on the flag: %s), expected '{{ post }}'" % (sorted(txts), uses_flag), op.where())
     wildcard(F, rep)
     remainder_only(F, rep)
